@@ -1,5 +1,6 @@
 (* Case-tree decoding/encoding for the client model, and histories of cycles over one datastore. *)
-From ToughV Require Import Model.Base Model.Pct Model.Sig Model.Glob Model.Deleg Model.Client.
+From ToughV Require Import Model.Base Model.Pct Model.Sig Model.Glob Model.Deleg Model.Client Model.Stream
+     Model.Read Model.TName Model.Save.
 
 Definition optN_of_tree (t : tree) : option N := t_opt t_N t.
 
@@ -89,8 +90,71 @@ Definition cyc_of_tree (c : tree) : cyc :=
      cy_srv := server_of_tree (t_nth c 2); cy_now := Z_of_tree (t_nth c 3);
      cy_fault := fault_of_tree (t_nth c 4) |}.
 
+(* ---- operations on a loaded repository (read_target / save_target) ---- *)
+Definition tfile_of_tree (t : tree) : tfile := (optN_of_tree (t_nth t 0), t_bytes (t_nth t 1)).
+Definition tree_of_tfile (f : tfile) : tree := T [of_opt L (fst f); of_bytes (snd f)].
+Definition tsrv_of_tree (t : tree) : list (tfile * tserved) :=
+  map (fun e => (tfile_of_tree (t_nth e 0),
+                 let s := t_nth e 1 in
+                 let k := t_N (t_nth s 0) in
+                 if k =? 0 then TAbsent else if k =? 1 then TFetchErr
+                 else TStream (map item_of_tree (t_list (t_nth s 1)))))
+      (t_list t).
+Definition htable_of_tree (t : tree) : bytes -> N :=
+  let tbl := map (fun e => (t_bytes (t_nth e 0), t_N (t_nth e 1))) (t_list t) in
+  fun b => match find_assoc b tbl with Some i => i | None => 0 end.
+
+Fixpoint first_error (s : list item) : N :=
+  match s with
+  | [] => 0
+  | Chunk _ :: r => first_error r
+  | TErr :: _ => 1 | ErrMax :: _ => 2 | ErrHash :: _ => 3
+  end.
+
+Definition fs_tree (f : fsys) : tree :=
+  T (map (fun pv => T [T (map of_bytes (fst pv)); of_bytes (snd pv)]) (fs_files f)).
+
+(* ops: [0, tname, now] read; [1, tname, digest_prefix, now] save into the output directory;
+        [2, path, content] a file that already exists in the output directory *)
+Fixpoint run_ops (H : bytes -> N) (fx : fixes) (cfg : config) (rp : repo) (tsrv : list (tfile * tserved))
+         (ops : list tree) (f : fsys) (w : world) : list tree :=
+  match ops with
+  | [] => []
+  | o :: rest =>
+      let k := t_N (t_nth o 0) in
+      if k =? 0 then
+        let '(r, w') := read_target H fx cfg (Z_of_tree (t_nth o 2)) rp tsrv (tname_of_tree (t_nth o 1)) w in
+        (match r with
+         | Err c a => T [L 2; L c; L a]
+         | Ok RNotFound => T [L 0]
+         | Ok (RStream file s) => let '(d, ok) := consume s in
+                                  T [L 1; tree_of_tfile file; of_bytes d; of_bool ok; L (first_error s)]
+         end) :: run_ops H fx cfg rp tsrv rest f w'
+      else if k =? 1 then
+        let '(r, f', w') := save_target H fx cfg (Z_of_tree (t_nth o 3)) rp tsrv (tname_of_tree (t_nth o 1))
+                                        (t_bool (t_nth o 2)) [] f w in
+        T [L 3; match r with Ok _ => T [L 0] | Err c a => T [L c; L a] end; fs_tree f']
+          :: run_ops H fx cfg rp tsrv rest f' w'
+      else
+        let f' := {| fs_files := fs_put (map t_bytes (t_list (t_nth o 1))) (t_bytes (t_nth o 2)) (fs_files f);
+                     fs_tmp := fs_tmp f |} in
+        T [L 4] :: run_ops H fx cfg rp tsrv rest f' w
+  end.
+
 Definition run_history (fx : fixes) (cycles : list tree) (s : store) : list tree :=
-  map (fun rw => result_tree (fst rw) (snd rw)) (run_hist fx (map cyc_of_tree cycles) s).
+  (fix go (cs : list tree) (rws : list (res repo * world)) : list tree :=
+     match cs, rws with
+     | c :: cs', rw :: rws' =>
+         let base := result_tree (fst rw) (snd rw) in
+         let opsr := match fst rw with
+                     | Ok rp => run_ops (htable_of_tree (t_nth c 7)) fx (config_of_tree (t_nth c 0)) rp
+                                        (tsrv_of_tree (t_nth c 5)) (t_list (t_nth c 6))
+                                        {| fs_files := []; fs_tmp := None |} (snd rw)
+                     | Err _ _ => []
+                     end in
+         T (t_list base ++ [T opsr]) :: go cs' rws'
+     | _, _ => []
+     end) cycles (run_hist fx (map cyc_of_tree cycles) s).
 
 (* op 0: [fixes, [cycles]] -> per-cycle results *)
 Definition run_client (op : N) (a : list tree) : tree :=
